@@ -46,7 +46,7 @@ func init() {
 		}}},
 		Run: func(c *core.Ctx, idx int) { runHistory(c, idx, true) },
 		Floors: func(t string) map[string]int64 {
-			return map[string]int64{"nn.k>1.depth>=2": 1000, "nn.depth>=3": 100, "nn.k>=size": 200, "nn.point_on_border": 300, "nn.point_outside_root": 300, "nn.beyond_1e140": 100, "nn.after_root_collapse": 100, "nn.single": 1000}
+			return map[string]int64{"nn.k>1.depth>=2": 1000, "nn.depth>=3": 100, "nn.k>=size": 200, "nn.point_on_border": 300, "nn.point_outside_root": 300, "nn.beyond_1e140": 100, "nn.after_root_collapse": 100, "nn.single": 1000, "hist.grid_values_one_ulp_apart": 150}
 		},
 	})
 }
@@ -90,10 +90,15 @@ type hist struct {
 	palette                    []geom.Bounds // when non-empty most new objects take one of these few boxes
 	scale, offset              float64       // every X is (grid value + offset) * scale; scale is a power of two (1, 2^-570 or 2^1018 with offset 33)
 	steer                      bool          // deletes are aimed, with the help of the hooked snapshot, at leaves under a chain of minimally filled nodes
+	twoCol                     bool          // every X is one of two ADJACENT doubles (column col and col+1 of the one-ulp grid), Y is ordinary: every node box is at most one ulp wide
+	col                        int
 	sy, oy                     float64       // the same for Y (equal to scale, offset, or 1, 0 when only the X axis is at the end of the range)
 }
 
 func (h *hist) coord() float64 {
+	if h.twoCol {
+		return (float64(h.col+h.r.Intn(2)) + h.offset) * h.scale
+	}
 	if h.float {
 		return (h.r.Range(0, 20) + h.offset) * h.scale
 	}
@@ -101,6 +106,16 @@ func (h *hist) coord() float64 {
 }
 
 func (h *hist) coordY() float64 {
+	if h.twoCol {
+		// Y on the scale of the column spacing (one ulp of X), now and then far away
+		switch {
+		case h.r.Chance(0.3):
+			return math.Round(h.r.Range(-6, 6)*2) / 2 * h.sy
+		case h.r.Chance(0.1):
+			return h.r.Range(-1000, 1000) * h.sy
+		}
+		return h.r.Range(-6, 6) * h.sy
+	}
 	if h.float {
 		return (h.r.Range(0, 20) + h.oy) * h.sy
 	}
@@ -131,6 +146,16 @@ func (h *hist) newObj() stored {
 			w, ht = float64(r.Intn(4)), float64(r.Intn(4))
 		}
 		w, ht = w*h.scale, ht*h.sy
+	}
+	if h.twoCol {
+		// nothing wider than the two columns
+		w, ht = 0, 0
+		if x0 == (float64(h.col)+h.offset)*h.scale && r.Chance(0.3) {
+			w = h.scale
+		}
+		if r.Chance(0.3) {
+			ht = r.Range(0, 2) * h.sy
+		}
 	}
 	b := geom.Bounds{Min: geom.Point{X: x0, Y: y0}, Max: geom.Point{X: x0 + w, Y: y0 + ht}}
 	if r.Chance(0.03) {
@@ -635,6 +660,25 @@ func runHistory(c *core.Ctx, idx int, nn bool) {
 			c.Count("hist.coordinates_of_magnitude_1e308")
 		}
 	}
+	if h.scale == 1 && h.far == 0 && (nn && r.Chance(0.12) || r.Chance(0.04)) {
+		// the integer grid moved out to 2^52, where neighbouring grid values are ONE ulp apart (or,
+		// scaled by 2^-52, the doubles 1, 1+2^-52, 1+2*2^-52, ...): boxes are a few ulps wide, and a
+		// midpoint or a half-sum of two of their coordinates is rounded onto one of them
+		h.float = false
+		h.offset = math.Ldexp(1, 52)
+		if r.Bool() {
+			h.scale = math.Ldexp(1, -52)
+		}
+		if r.Chance(0.6) {
+			h.sy, h.oy = h.scale, h.offset
+		}
+		if r.Chance(0.5) {
+			h.twoCol, h.col = true, r.Intn(8)
+			h.sy, h.oy = h.scale, 0
+			c.Count("hist.two_adjacent_columns")
+		}
+		c.Count("hist.grid_values_one_ulp_apart")
+	}
 	if r.Chance(0.15) {
 		// few distinct boxes (1..5) shared by most objects
 		np := r.IntRange(1, 5)
@@ -875,7 +919,7 @@ func (h *hist) queryNN() {
 	if h.scale == math.Ldexp(1, -538) && nq == 6 {
 		nq = 40 // wrong answers at this scale are rare per query (a few in 10000)
 	}
-	xOnly := h.scale > 1 && h.sy == 1
+	xOnly := h.scale > 1 && h.sy == 1 || h.twoCol
 	if xOnly && nq == 6 {
 		// X ordinates that coincide exactly with stored ones are the only X differences whose
 		// square does not overflow: many queries on the grid lines, above, below and between
@@ -896,6 +940,14 @@ func (h *hist) queryNN() {
 			p = geom.Point{X: []float64{m.Min.X, m.Max.X}[r.Intn(2)], Y: r.Range(-15, 40)}
 			if r.Bool() {
 				p.Y = math.Round(p.Y*2) / 2
+			}
+			if h.twoCol {
+				// on one of the two columns, next to a stored object or anywhere along the column
+				p.X = (float64(h.col+r.Intn(2)) + h.offset) * h.scale
+				p.Y = m.Min.Y + r.Range(-3, 3)*h.sy
+				if r.Chance(0.2) {
+					p.Y = r.Range(-8, 8) * h.sy
+				}
 			}
 			cat = "x_equal_to_a_stored_ordinate"
 		case 5:
